@@ -726,6 +726,12 @@ func (st *state) applyDefaults(instancep reflect.Value, schema *Schema) (err err
 			val := property(instance, prop)
 			switch instance.Kind() {
 			case reflect.Map:
+				key := reflect.ValueOf(prop)
+				if kt := instance.Type().Key(); kt != key.Type() {
+					// The map's key type may be a named string type (type K string): convert,
+					// since SetMapIndex requires the key to be assignable to the map's key type.
+					key = key.Convert(kt)
+				}
 				// If there is a default for this property, and the map key is missing,
 				// set the map value to the default.
 				if subschema.Default != nil && !val.IsValid() {
@@ -738,7 +744,7 @@ func (st *state) applyDefaults(instancep reflect.Value, schema *Schema) (err err
 					if err := st.applyDefaults(lvalue, subschema); err != nil {
 						return err
 					}
-					instance.SetMapIndex(reflect.ValueOf(prop), lvalue.Elem())
+					instance.SetMapIndex(key, lvalue.Elem())
 				} else if val.IsValid() {
 					// Recurse into an existing sub-instance.
 					// MapIndex returns a non-addressable value; copy into an addressable lvalue, recurse, then set back.
@@ -748,7 +754,7 @@ func (st *state) applyDefaults(instancep reflect.Value, schema *Schema) (err err
 					if err := st.applyDefaults(lvalue, subschema); err != nil {
 						return err
 					}
-					instance.SetMapIndex(reflect.ValueOf(prop), lvalue.Elem())
+					instance.SetMapIndex(key, lvalue.Elem())
 				} else if schemaHasDefaultsInProperties(subschema) {
 					// Property is missing, but descendants still have some defaults
 					// Create an empty container and recurse to populate
@@ -768,7 +774,7 @@ func (st *state) applyDefaults(instancep reflect.Value, schema *Schema) (err err
 						if err := st.applyDefaults(lvalue, subschema); err != nil {
 							return err
 						}
-						instance.SetMapIndex(reflect.ValueOf(prop), lvalue.Elem())
+						instance.SetMapIndex(key, lvalue.Elem())
 					}
 				}
 			case reflect.Struct:
